@@ -165,6 +165,8 @@ def gen(rng, tier):
     pol = {'kind': 'pct', 'd': rng.choice([1, 2, 3])}
   return {'bound': bound, 'refs': refs, 'threads': threads,
           'body_yields': rng.randint(0, 2),
+          # worker pools give all their threads one name
+          'same_thread_names': rng.random() < 0.4,
           'sched': {'policy': pol, 'seed': rng.getrandbits(32)}}
 
 
@@ -405,7 +407,8 @@ def _execute(case, policy, replay, hint):
           check_scope(cst, [], 'thread-start')
           run_ops(body, cst, [])
           check_scope(cst, [], 'thread-end')
-        s.spawn(child)
+        s.spawn(child, thread_name='worker' if case.get('same_thread_names')
+                else None)
       elif kind == 'block':
         status, new = model_entry(op['entry'], cur, st['captured'])
         with s.atomic():
@@ -484,8 +487,9 @@ def _execute(case, policy, replay, hint):
         check_scope(st, [], 'thread-end')
     return program
 
+  tname = 'worker' if case.get('same_thread_names') else None
   for ti, th in enumerate(case['threads']):
-    s.spawn(make_main(ti, th['ops']))
+    s.spawn(make_main(ti, th['ops']), thread_name=tname)
   s.run()
   if s.failure is not None:
     kind = type(s.failure).__name__
